@@ -41,6 +41,8 @@ def gen_schedule(rng, rig, nthr, nops, in_win, peer_max, allow_close=True, allow
         for t, s in enumerate(states):
             if s == "hold":
                 cands += [("emit %d" % t, 5)]
+                if not local_only:
+                    cands += [("efail %d" % t, 0.6)]
             elif s == "waiting":
                 cands += [("wake %d %d" % (t, rng.choice([0, 0, 1, 2, 5, 50])), 2)]
             elif s == "gotbytes":
@@ -87,6 +89,34 @@ def gen_schedule(rng, rig, nthr, nops, in_win, peer_max, allow_close=True, allow
         yield op
 
 
+def clamp_facts():
+    """('true'|'false', 'true'|'false'): is the peer's max packet size clamped where the model clamps it?"""
+    import ast
+    import inspect
+    import textwrap
+    from paramiko.channel import Channel
+    from paramiko.transport import Transport
+
+    def body(fn):
+        return ast.parse(textwrap.dedent(inspect.getsource(fn))).body[0].body
+
+    a = False
+    for st in ast.walk(ast.Module(body=body(Channel._set_remote_channel), type_ignores=[])):
+        if isinstance(st, ast.Assign) and any(isinstance(t, ast.Attribute) and t.attr == "out_max_packet_size"
+                                              for t in st.targets):
+            v = st.value
+            a = (isinstance(v, ast.Call) and isinstance(v.func, ast.Attribute)
+                 and v.func.attr == "_sanitize_packet_size" and len(v.args) == 1
+                 and isinstance(v.args[0], ast.Name) and v.args[0].id == "max_packet_size")
+    b = False
+    for st in body(Transport._sanitize_packet_size):
+        if isinstance(st, ast.Return) and isinstance(st.value, ast.Call) and getattr(st.value.func, "id", "") == "clamp_value":
+            args = st.value.args
+            b = (len(args) == 3 and getattr(args[0], "id", "") == "MIN_PACKET_SIZE"
+                 and getattr(args[2], "id", "") == "MAX_WINDOW_SIZE" and getattr(args[1], "id", "") == "max_packet_size")
+    return ("true" if a else "false", "true" if b else "false")
+
+
 class WireMonitor:
     """the property, evaluated on what the real code wrote (independent of the model)"""
 
@@ -125,7 +155,8 @@ def run_schedule(ctx, rng, nthr, nops, **gen_kw):
     mon = WireMonitor(peer_win, peer_max)
     reqs = ["init %d %d %d %d 0" % (in_win, peer_win, peer_max, nthr)]
     impl = [rig.view()]
-    info = {"blocked": 0, "capped": 0, "acks": 0, "ops": 0}
+    info = {"blocked": 0, "capped": 0, "acks": 0, "ops": 0, "failed_sends": 0}
+    requested = {}
     try:
         for op in gen_schedule(rng, rig, nthr, nops, in_win, peer_max, **gen_kw):
             w = op.split()
@@ -134,6 +165,14 @@ def run_schedule(ctx, rng, nthr, nops, **gen_kw):
             if w[0] == "feedx" and w[2] != "1":
                 mon.discarded += int(w[3])
             rig.do(op)
+            if w[0] == "send":
+                requested[int(w[1])] = int(w[2])
+            for t, lt in enumerate(rig.threads):
+                if t in requested and lt.state == "idle":
+                    n_req = requested.pop(t)
+                    if lt.result.startswith("r") and not (0 <= int(lt.result[1:]) <= n_req) and not mon.problem:
+                        mon.problem = ("send-returned-impossible-count",
+                                       "send of %d bytes returned %s" % (n_req, lt.result[1:]))
             if w[0] == "recv":
                 lt = rig.threads[int(w[1])]
                 if lt.state == "gotbytes":
@@ -147,6 +186,8 @@ def run_schedule(ctx, rng, nthr, nops, **gen_kw):
             reqs.append(op)
             impl.append(rig.view())
             info["ops"] += 1
+            if w[0] == "efail":
+                info["failed_sends"] += 1
             if any(lt.state == "waiting" for lt in rig.threads):
                 info["blocked"] += 1
         info["acks"] = sum(1 for t in rig.wire if t[0] == "a")
@@ -285,7 +326,12 @@ def run(ctx):
         "def MIN_PACKET_SIZE : Nat := %d\n"
         "def MAX_WINDOW_SIZE : Nat := %d\n"
         "def MIN_WINDOW_SIZE : Nat := %d\n"
-        "end PV.Generated.C19\n" % (common.MIN_PACKET_SIZE, common.MAX_WINDOW_SIZE, common.MIN_WINDOW_SIZE)))
+        "/-- AST facts: Channel._set_remote_channel assigns out_max_packet_size from transport._sanitize_packet_size(…),\n"
+        "    and Transport._sanitize_packet_size returns clamp_value(MIN_PACKET_SIZE, …, MAX_WINDOW_SIZE) -/\n"
+        "def remote_max_packet_sanitised : Bool := %s\n"
+        "def sanitise_is_clamp_min_max : Bool := %s\n"
+        "end PV.Generated.C19\n" % ((common.MIN_PACKET_SIZE, common.MAX_WINDOW_SIZE, common.MIN_WINDOW_SIZE)
+                                      + clamp_facts())))
     ctx.build(extra_modules=["PV.Model.ChanDriver"])
     rng = ctx.rng
     n_sched = 20000 if ctx.thorough else 4000
@@ -300,6 +346,7 @@ def run(ctx):
         ctx.dist("steps-with-a-thread-blocked-on-zero-window", info["blocked"])
         ctx.dist("messages-capped-at-max_packet-64", info["capped"])
         ctx.dist("window-adjusts-written", info["acks"])
+        ctx.dist("wire-writes-that-raised-SSHException", info["failed_sends"])
         ctx.dist("threads:%d" % nthr)
         if i % 300 == 0:
             ctx.sample(case)
@@ -321,7 +368,11 @@ META = {
               "adjustments (window_equation ⇒ sent_le_granted); every data message is non-empty and ≤ "
               "out_max_packet_size-64, hence below the peer's maximum packet size when that is ≥ 4096 "
               "(data_msg_le_peer_max); Σ WINDOW_ADJUST written + pending + in_window_sofar ≤ bytes consumed (+ "
-              "discarded) and received = consumed + discarded + buffered (adjust_le_consumed). Tied to channel.py by "
+              "discarded) and received = consumed + discarded + buffered (adjust_le_consumed). A wire write that raises "
+              "SSHException (action emitFail) returns nothing to the window: the equation carries the lost bytes "
+              "(failed_send_returns_nothing); out_max_packet_size is the clamped value in every reachable state "
+              "(max_packet_clamped) and the clamp sits in the source where the model has it (clamp_is_in_the_source, "
+              "constants_eq_generated — AST facts regenerated each run). Tied to channel.py by "
               "step-by-step differential runs of a real Channel under a deterministic lock-region scheduler."),
     "note": ("Atomic regions are the `self.lock` bodies and single _send_user_message calls of channel.py; payloads are "
              "abstracted to lengths; BufferedPipe is abstracted to a byte count (C26 covers it); peer max packet "
